@@ -333,8 +333,8 @@ func Check() *common.Check {
 }
 
 func enumerate(e *common.Enum) {
-	debug.SetMaxStack(768 << 20) // deep expression chains are walked recursively; recursion depth is C02's subject
-	debug.SetMemoryLimit(3 << 30)
+	debug.SetMaxStack(768 << 20)  // deep expression chains are walked recursively; recursion depth is C02's subject
+	debug.SetMemoryLimit(3 << 29) // 1.5 GiB: the collector is off during a call and only runs when the heap gets this large
 	fams := families()
 	ents := entries()
 	for fi := range fams {
